@@ -303,7 +303,10 @@ RespReturn(c) ==
 \* ---- awaiting an address (Future for Addr, addr.rs:216-225); halt / try_halt continue here
 AwaitBegin(c, o) ==
   LET x == o.h  a == hnd[x].a IN
-  /\ CanIssue(c) /\ Owns(c, x) /\ o.op \in {"await", "await_ref"} /\ hnd[x].kind = "addr" /\ ~hnd[x].polled
+  /\ CanIssue(c) /\ Owns(c, x) /\ o.op \in {"await", "await_ref"} /\ hnd[x].kind = "addr"
+  \* D6: an address that already returned its output by reference - and every clone made of it afterwards - panics
+  \* when awaited (Shared polled again after completion); intended: it resolves again, like any other clone
+  /\ ("D6" \notin Dev \/ ~hnd[x].polled)
   /\ IF o.op = "await"      \* by value: the handle is consumed, but lives until the await returns
      THEN /\ cli' = Began(c, o, Mid(c), a, "await", [tx |-> TRUE, fo |-> TRUE, raw |-> FALSE])
           /\ hnd' = [y \in DOMAIN hnd \ {x} |-> hnd[y]]
